@@ -1,4 +1,5 @@
 // @inject src/arena/pool.rs as verif_kani_rel
+// @append src/arena/mod.rs: pub(crate) use pool::verif_kani_rel as verif_poolset;
 // @needs bump.rs
 // Contracts for PoolSet (property C12; these postconditions are the contract stubs used by C02/C05 harnesses).
 // release-cfg: `Arena` is bump::Arena (in debug builds it is the debug wrapper enum, which CBMC cannot encode in time).
@@ -230,7 +231,7 @@ fn poolset_alloc_str__contract() {
 }
 
 /// A PoolSet whose pools are never touched (alloc is stubbed by its contract): zero slots, dangling blocks.
-fn layout_poolset_trivial(arena: &'static Arena) -> PoolSet<'static> {
+pub(crate) fn layout_poolset_trivial(arena: &'static Arena) -> PoolSet<'static> {
     let pools: [Pool; CLASS_COUNT as usize] = std::array::from_fn(|i| Pool {
         block: SlotBlock { base: NonNull::dangling(), slot_size: SLOT_SIZES[i], slot_count: 0, bump: Cell::new(0) },
         free: FreeList { indices: NonNull::dangling(), capacity: 0, len: Cell::new(0) },
